@@ -7,7 +7,8 @@ from harness import tlc, tracecheck, sk, handover_drv as hd
 from harness.sendpath_drv import Unmappable
 from harness.common import machinery_failure
 
-P_INV = ["I_C09_RejectedNotStored", "I_C09_RejectedNotServed", "I_C09_AcceptedStored", "I_C09_RejectionLeavesStateAsItWas", "I_C12_FoundStored", "I_C12_FoundBroadcast"]
+P_INV = ["I_C09_RejectedNotStored", "I_C09_RejectedNotServed", "I_C09_AcceptedStored", "I_C09_RejectionLeavesStateAsItWas", "I_C09_NoFlushFailure", "I_C12_FoundStored",
+         "I_C12_FoundBroadcast"]
 COMBOS = [("accepted relay block", True, True, 0), ("rejected relay block", False, True, 0), ("bulk-download block, not validated", True, False, 77)]
 
 
@@ -20,13 +21,19 @@ def stage(chk, quick, rng, pid, cfg, keys, build_universe):
     stops = None
     # ---- design level: the repaired order holds the P invariants in every interleaving; each repair is necessary
     for (name, xv, xd, irt) in COMBOS:
-        c = {"XValid": xv, "XValidated": xd, "MinerOn": True, "EmitHist": False, "SaveAfterValidation": True, "SelectiveClear": True, "AtomicRollback": True, "MinerHandOverValidated": True}
+        c = {"XValid": xv, "XValidated": xd, "MinerOn": True, "EmitHist": False, "SaveAfterValidation": True, "SelectiveClear": True, "AtomicRollback": True, "MinerHandOverValidated": True, "SaveBeforePublish": True}
         r = tracecheck.model("MC_Handover", "MSpec", c, workers=2, timeout=600, view="View", invariants=P_INV, properties=["A_C12_AdoptedAtHandOver"])
         tlc.require_clean(r, "MC_Handover")
         chk.add_tlc("MC_Handover (%s x found block, every interleaving of the source lines)" % name, r, constants=str(c))
         if r.violated:
             return machinery_failure(pid, "Handover (repaired order) violates %s" % r.violated)
-    base = {"XValid": False, "XValidated": True, "MinerOn": True, "EmitHist": False, "MinerHandOverValidated": True}
+    base = {"XValid": False, "XValidated": True, "MinerOn": True, "EmitHist": False, "MinerHandOverValidated": True, "SaveBeforePublish": True}
+    rp = tracecheck.model("MC_Handover", "MSpec", dict(base, XValid=True, SaveAfterValidation=True, SelectiveClear=True, AtomicRollback=True, SaveBeforePublish=False), workers=2, timeout=600,
+                          view="View", invariants=["I_C09_NoFlushFailure"])
+    chk.add_tlc("Handover necessity run: the accepted block is published before it is buffered (a block found on top of it reaches the buffer first: the flush "
+                "hits the foreign key of the chain table)", rp, expect_violation="I_C09_NoFlushFailure")
+    if not rp.violated:
+        return machinery_failure(pid, "vacuity: Handover with SaveBeforePublish=FALSE never fails a flush")
     rv = tracecheck.model("MC_Handover", "MSpec", dict(base, SaveAfterValidation=True, SelectiveClear=True, AtomicRollback=True, MinerHandOverValidated=False), workers=2, timeout=600,
                           view="View", invariants=["I_C09_RejectionLeavesStateAsItWas"])
     chk.add_tlc("Handover necessity run: the miner's hand-over does not count as validated (a later rejection rolls the found block out of the state)", rv,
@@ -48,7 +55,7 @@ def stage(chk, quick, rng, pid, cfg, keys, build_universe):
     n = 45 if quick else 700
     nfeas = ntot = 0
     for (name, xv, xd, irt) in COMBOS:
-        c = {"XValid": xv, "XValidated": xd, "MinerOn": True, "EmitHist": True, "SaveAfterValidation": sw["SaveAfterValidation"], "SelectiveClear": sw["SelectiveClear"], "AtomicRollback": sw["AtomicRollback"], "MinerHandOverValidated": True}
+        c = {"XValid": xv, "XValidated": xd, "MinerOn": True, "EmitHist": True, "SaveAfterValidation": sw["SaveAfterValidation"], "SelectiveClear": sw["SelectiveClear"], "AtomicRollback": sw["AtomicRollback"], "MinerHandOverValidated": True, "SaveBeforePublish": sw["SaveBeforePublish"] or not sw["SaveAfterValidation"]}
         rg = tracecheck.model("MC_Handover", "MSpec", c, workers=1, timeout=900, invariants=["I_Emit"])
         tlc.require_clean(rg, "MC_Handover gen")
         hs = tlc.tagged(rg, "HIST")
@@ -88,7 +95,7 @@ def stage(chk, quick, rng, pid, cfg, keys, build_universe):
             info[tid] = {"delivery": name, "schedule": [[s["t"], s["a"]] for s in h], "feasible_as_dictated": feas, "why_not": why, "observed": obs}
             chk.case(("handover", name, json.dumps(info[tid]["schedule"])), nontrivial=True)
         chk.sample({"two_thread_schedule_of_the_node": info[tid]})
-        tc = {"XValid": xv, "XValidated": xd, "MinerOn": True, "SaveAfterValidation": sw["SaveAfterValidation"], "SelectiveClear": sw["SelectiveClear"], "AtomicRollback": sw["AtomicRollback"], "MinerHandOverValidated": True}
+        tc = {"XValid": xv, "XValidated": xd, "MinerOn": True, "SaveAfterValidation": sw["SaveAfterValidation"], "SelectiveClear": sw["SelectiveClear"], "AtomicRollback": sw["AtomicRollback"], "MinerHandOverValidated": True, "SaveBeforePublish": sw["SaveBeforePublish"] or not sw["SaveAfterValidation"]}
         verdicts, r2 = tracecheck.run("TraceHandover", traces, tc, ids=[t["id"] for t in traces], workers=2, timeout=1200)
         chk.states += r2.distinct
         chk.traces_validated += len(traces)
